@@ -721,7 +721,9 @@ impl Monitor for M {
          every single pattern of 1-3 letters over {a,b} with levels {0,1,2,7} and every anchor \
          combination, with and without an exception, on every word of length <=7 over {a,b} in both \
          cases; `plain` = plain TeX's 4447 patterns + 14 exceptions on generated English-like words in \
-         random case; `known` = the fixed reproducer of the listed finding. A case is non-trivial when \
+         random case; `bulk` = 50 000 patterns (every three-letter key and 35 000 four-letter keys, far more than 64 KiB \
+         of stored levels), then 4-12 late patterns and 1-4 exceptions, on 400 words built around them; \
+         `known` = the fixed reproducer of the listed finding. A case is non-trivial when \
          at least one of its words gets a hyphen position and at least one word has an odd and an even \
          level competing in the same gap (or is in the exception list while patterns match it); \
          distinct = hash of (patterns, exceptions, alphabet)."
